@@ -27,6 +27,7 @@ def run(rep):
     dtchecks.inverse_replay(rep, fnd, tab, res2.records, "C11")
     dtchecks.numeric_inverse(rep, fnd, "C11", rep.tier)
     stagetrace.validate_dtcwt(rep, "C11", rep.tier, "DTCWTInverse")
+    dtchecks.absent_batched(rep, fnd, "C11", rep.tier)
     from .. import scalechecks
     scalechecks.dtcwt(rep, "C11", rep.tier, "inverse")          # large inputs (size thresholds)
     if rep.tier == "thorough":
